@@ -87,7 +87,8 @@ def glv(chk, prog):
         calls = fld(res, "calls")
         loads = find(calls, lambda x: x[0] == "call" and x[1].endswith("::load"))
         counter = loads[0][2][0] if loads else None
-        chk.ob("R-WIRE", GLV, bool(loads), "the reported call count is the counter's value", w, key="calls-wiring")
+        plain = None if loads else plain_counter(prog, clo)
+        chk.ob("R-WIRE", GLV, bool(loads) or bool(plain and plain["reported"]), "the reported call count is the counter's value", w, key="calls-wiring")
     # the probe closure: volume -> async { list(site, VolumeIndex::new(volume + k1), 1) }
     k1 = None
     if clo[0] == "closure":
@@ -100,9 +101,15 @@ def glv(chk, prog):
         if fut is not None:
             adds = [e for e in ev2.effects if e[0].endswith("::fetch_add")]
             okc = len(adds) == 1 and adds[0][1][1] == C(1, "i32") and (counter is None or repr(adds[0][1][0]) in repr(counter) or True)
-            chk.ob("R-ORDER", GLV, okc, "each probe increments the call counter exactly once (by 1)" if okc else "counter increments per probe: %d" % len(adds), w, key="count-per-probe")
-            same_counter = counter is not None and adds and strip(adds[0][1][0]) == strip(counter)
-            chk.ob("R-WIRE", GLV, bool(same_counter), "the counter incremented by the probe is the one reported", w, key="same-counter")
+            if plain is not None and not adds:
+                # a plain integer local borrowed mutably by the probe closure: one `*c = *c + 1` outside any loop
+                okc = plain["increments"] == 1
+                chk.ob("R-ORDER", GLV, okc, "each probe increments the call counter exactly once (by 1)" if okc else "counter increments per probe: %d" % plain["increments"], w, key="count-per-probe")
+                chk.ob("R-WIRE", GLV, bool(plain["reported"] and plain["zeroed"]), "the counter incremented by the probe is the one reported, and it starts at 0", w, key="same-counter")
+            else:
+                chk.ob("R-ORDER", GLV, okc, "each probe increments the call counter exactly once (by 1)" if okc else "counter increments per probe: %d" % len(adds), w, key="count-per-probe")
+                same_counter = counter is not None and adds and strip(adds[0][1][0]) == strip(counter)
+                chk.ob("R-WIRE", GLV, bool(same_counter), "the counter incremented by the probe is the one reported", w, key="same-counter")
             if fut[0] == "closure":
                 inner = prog.fn(fut[1])
                 ev3 = sym.Evaluator(prog, opaque_local=[SEARCH, LIST])
@@ -115,7 +122,7 @@ def glv(chk, prog):
                     lists = [e for e in ev3.effects if e[0] == LIST]
                     chk.ob("R-ORDER", GLV, len(lists) == 1, "each probe issues exactly one listing request (%d found)" % len(lists), w, key="one-listing-per-probe")
                     adds2 = [e for e in ev3.effects if e[0].endswith("::fetch_add")]
-                    chk.ob("R-ORDER", GLV, not adds2, "the counter is not touched again inside the probe's future", w, key="no-double-count")
+                    chk.ob("R-ORDER", GLV, not adds2 and not (plain and plain["escapes"]), "the counter is not touched again inside the probe's future", w, key="no-double-count")
                     if len(lists) == 1:
                         a = lists[0][1]
                         vi = a[1]
@@ -125,7 +132,8 @@ def glv(chk, prog):
                             if v[0] == "bin" and v[1] == "Add" and P("volume") in (v[2], v[3]):
                                 k = v[2] if v[3] == P("volume") else v[3]
                                 k1 = k[1] if sym.is_c(k) else None
-                        chk.ob("VN", GLV, a[0] == site and a[2] == C(1, "usize"), "the listing asks for this site with max-keys 1", w, key="listing-args")
+                        chk.ob("VN", GLV, a[0] == site and a[2] == C(1, "usize"), "the listing asks for this site with max-keys 1" if a[0] == site and a[2] == C(1, "usize") else
+                               "the listing is asked for (%s, .., %s): this site with max-keys 1 expected" % (show(a[0])[:80], show(a[2])[:40]), w, key="listing-args")
                         l = call(LIST, *a)
                         want = sym.res_match(("await", l), lambda chunks: ok(sym.opt_match(call("core::slice::<impl [T]>::first", chunks), lambda c: fld(c, "date_time"), lambda: NONE)),
                                              lambda e: err(("conv", e)))
@@ -146,6 +154,69 @@ def glv(chk, prog):
     okk = N is not None and k1 is not None and N + k1 - 1 == ROTATION and k1 == 1
     chk.ob("R-SIB", GLV, okk, "search covers indices 0..%s => directories %s..=%s (must be 1..=%d)" % (N, k1, (N + k1 - 1) if (N is not None and k1 is not None) else "?", ROTATION),
            w, key="covers-all-directories")
+
+
+def plain_counter(prog, clo):
+    """The call counter as a plain integer local of get_latest_volume's body, mutably borrowed by the probe closure.
+    Returns None when there is no such local; else whether it is the value reported as `calls`, starts at 0 and is written
+    nowhere else in the body, how many `*c = *c + 1` the probe closure performs on it (writes in a loop count as many), and
+    whether the borrow is handed on to the probe's future."""
+    co = prog.fn(GLV + "::{closure#0}")
+    if co is None or clo[0] != "closure":
+        return None
+    probe = prog.fn(clo[1])
+    if probe is None:
+        return None
+    # the closure aggregate in the parent and the local each captured operand borrows
+    agg = [st for b, i, st in co.stmts() if st["s"] == "assign" and st.get("rv") == "agg" and st.get("ak") == "closure" and st.get("def") == clo[1]]
+    if len(agg) != 1:
+        return None
+    refs = {st["dst"]["l"]: st for b, i, st in co.stmts() if st["s"] == "assign" and st.get("rv") == "ref" and not st["dst"]["p"]}
+    cands = []
+    for k, op in enumerate(agg[0]["ops"]):
+        l = op.get("pl", {}).get("l")
+        r = refs.get(l)
+        if r is not None and r["bk"].startswith("Mut") and not r["pl"]["p"] and co.locals[r["pl"]["l"]]["ty"]["s"] in sym.INT_TYS:
+            cands.append((k, r["pl"]["l"]))
+    if len(cands) != 1:
+        return None
+    k, cl = cands[0]
+    writes = [st for b, i, st in co.stmts() if st["s"] == "assign" and st["dst"]["l"] == cl]
+    zeroed = len(writes) == 1 and not writes[0]["dst"]["p"] and writes[0].get("rv") == "use" and writes[0]["a"].get("k") == "const" and writes[0]["a"].get("int") == 0
+    other_borrows = [st for b, i, st in co.stmts() if st["s"] == "assign" and st.get("rv") == "ref" and st["pl"]["l"] == cl and st["bk"].startswith("Mut")]
+    # reported: the `calls` field of the result aggregate is a copy of that local
+    rep = False
+    for b, i, st in co.stmts():
+        if st["s"] == "assign" and st.get("rv") == "agg" and st.get("ak") == "adt" and "calls" in (st.get("fields") or []):
+            op = st["ops"][st["fields"].index("calls")]
+            l = op.get("pl", {}).get("l")
+            defs = [s2 for b2, i2, s2 in co.stmts() if s2["s"] == "assign" and s2["dst"]["l"] == l and not s2["dst"]["p"]]
+            rep = l == cl or (len(defs) == 1 and defs[0].get("rv") == "use" and defs[0]["a"].get("pl", {}).get("l") == cl and not defs[0]["a"]["pl"]["p"])
+
+    def through(pl):
+        return pl["l"] == 1 and any(isinstance(e, dict) and e.get("f") == k for e in pl["p"][:3]) and pl["p"] and pl["p"][-1] == "*"
+    incs = 0
+    inloop = set()
+    for h, body in probe.loops().items():
+        inloop |= set(body)
+    tmp = {}
+    for b, i, st in probe.stmts():
+        if st["s"] == "assign" and st.get("rv") == "bin" and st["op"].startswith("Add") and st["a"].get("k") in ("copy", "move") and through(st["a"]["pl"]) and st["b"].get("k") == "const" and st["b"].get("int") == 1:
+            tmp[st["dst"]["l"]] = True
+    for b, i, st in probe.stmts():
+        if st["s"] == "assign" and through(st["dst"]):
+            src = st.get("a", {}).get("pl", {}).get("l") if st.get("rv") == "use" else None
+            incs += (1 if src in tmp else 2) * (50 if b in inloop else 1)
+    escapes = False
+    for b, i, st in probe.stmts():
+        if st["s"] == "assign" and st.get("rv") == "agg" and st.get("ak") in ("coroutine", "closure"):
+            for op in st["ops"]:
+                pl = op.get("pl")
+                if pl and pl["l"] == 1 and any(isinstance(e, dict) and e.get("f") == k for e in pl["p"]):
+                    escapes = True
+        if st["s"] == "assign" and st.get("rv") == "ref" and st["pl"]["l"] == 1 and any(isinstance(e, dict) and e.get("f") == k for e in st["pl"]["p"]):
+            escapes = True
+    return {"reported": rep, "zeroed": zeroed and len(other_borrows) == 1, "increments": incs, "escapes": escapes}
 
 
 def strip(t):
